@@ -1,6 +1,6 @@
 #!/bin/bash
 # runtests.sh <built tree> — run the project's suite, print counts and the names that failed; exit 0 iff the 172 baseline tests pass
 D=${1:-/repo}; L=$(mktemp); cd "$D" && make -k check -j8 >"$L" 2>&1
-P=$(grep -cE '^PASS:' "$L"); echo "PASS=$P"; grep -E '^(FAIL|ERROR):' "$L" | sort
+find "$D/tests" -name "*.sock.out" -delete 2>/dev/null; P=$(grep -cE '^PASS:' "$L"); echo "PASS=$P"; grep -E '^(FAIL|ERROR):' "$L" | sort
 BAD=$(grep -E '^(FAIL|ERROR):' "$L" | grep -vE 'datasource_systemd_unit_name.sh|output_socket.sh' | wc -l); rm -f "$L"
 [ "$P" -ge 172 ] && [ "$BAD" -eq 0 ]
